@@ -132,6 +132,8 @@ func runC02(c *Ctx) error {
 		return err
 	}
 	builder := frame.NewFrameBuilder()
+	relayBuilder := frame.NewFrameBuilder()
+	relayBuilder.SetFrameMargins(12, 16) // a forwarding router's builder keeps the link margins free
 	src16, dst16 := a.id.IP.As16(), b.id.IP.As16()
 
 	// ---------- (a) layout: NewFrameV1 vs build ----------
@@ -412,7 +414,57 @@ func runC02(c *Ctx) error {
 				c.Case(fmt.Sprintf("(%s,%s,%s)", coqBytes(d), coqBytes(v), coqBool(ok)), map[string]any{"kind": "variant", "type": s.mt, "variant": vi})
 			}
 		}
+		if si%3 == 0 {
+			apiVariants(c, relayBuilder, builder, sba, d, s.xi, s.msg, int(s.mt))
+		}
 	}
 	_ = netip.Addr{}
 	return nil
+}
+
+// apiVariants changes the hop-mutable fields of a sealed frame through the frame API (as a
+// forwarding router does: SetTTL, SetFlowFlag, SetAppendixData incl. sizes that force the frame
+// into a bigger pooled buffer), then requires that the receiver still unseals the same payload and
+// that every byte before the appendix, except TTL and flow flags, is unchanged.
+func apiVariants(c *Ctx, relay *frame.Builder, recvB *frame.Builder, recvS *state.Session, d []byte, xi int, msg []byte, mt int) {
+	for _, n := range []int{0, 7, 80, 520, 1500, 2000, 5000, 9000} {
+		ps := relay.GetPooledSlice(len(d))
+		if ps == nil {
+			continue
+		}
+		copy(ps, d)
+		f, err := relay.ParseFrame(ps[:len(d)], ps, 0)
+		if err != nil {
+			relay.ReturnPooledSlice(ps)
+			continue
+		}
+		apx := randBytes(c, n)
+		f.SetTTL(uint8(1 + c.Rng.IntN(200)))
+		f.SetFlowFlag(frame.FlowControlFlagHoldFlow)
+		serr := f.SetAppendixData(apx)
+		out, derr := f.FrameDataWithMargins(0, 0)
+		c.Eval()
+		rep := map[string]any{"type": mt, "appendix": n, "frame_len": len(d)}
+		if serr != nil || derr != nil {
+			// refusing an appendix that cannot fit is allowed; the frame must then be unchanged
+			f.ReturnToPool()
+			continue
+		}
+		cp := append([]byte(nil), out...)
+		f.ReturnToPool()
+		if len(cp) < xi || !bytes.Equal(cp[3:xi], d[3:xi]) || cp[0] != d[0] {
+			c.Violate("changing the appendix through the frame API altered a byte before the appendix", "api-appendix-altered", rep)
+			continue
+		}
+		if !bytes.Equal(cp[xi:], apx) {
+			c.Violate("the appendix set through the frame API is not the appendix of the frame", "api-appendix-wrong", rep)
+		}
+		ok, payload, pan := unsealCopy(recvB, recvS, cp)
+		if pan {
+			c.Violate("parse/unseal panicked after an appendix change through the frame API", "var-panic", rep)
+		} else if !ok || !bytes.Equal(payload, msg) {
+			c.Violate("changing TTL/flow/appendix through the frame API invalidated a sealed frame", "free-variant-api", rep)
+		}
+		c.NonTrivial(fmt.Sprintf("api-appendix/%d/%v", n, ok))
+	}
 }
